@@ -7,7 +7,8 @@
 // qhull is stubbed in this build: meshes are attached to non-colliding geoms (no hull needed).
 //
 // stdin : <seed> <feat> <nbody> <nmesh> <ntex> <flags> <reps>      flags: 1 = length ranges, 2 = hfield,
-//         4 = builtin meshes, 8 = start with usethread off
+//         4 = builtin meshes, 8 = start with usethread off, 16 = delayed actuators (history), 32 = muscle rig (length ranges of
+//         the muscles go through the pool under the default LRopt.mode)
 // stdout: CASE i / lines "CMP <what> <0|1> <detail>" and "STATE <what> <0|1> <detail>" / END <OK|DIFF|NOCOMPILE>
 #include <math.h>
 #include <stdint.h>
@@ -143,6 +144,37 @@ static mjSpec* make_spec(uint64_t seed, unsigned feat, int nbody, int nmesh, int
     mjs_setFloat(h->userdata, e.data(), (int)e.size());
     mjsGeom* g = mjs_addGeom(world, NULL); mjs_setName(g->element, "ghf");
     g->type = mjGEOM_HFIELD; mjs_setString(g->hfieldname, "hf"); g->pos[0] = 3;
+  }
+  if (flags & 32) {   // muscle rig: limited, damped hinges away from the rest, motors on some, muscles on the others.
+    // With the default LRopt.mode (muscles only) the length ranges of the muscles are computed through the pool while the
+    // other actuators (those of the mjgen tree come first in the list) need none.
+    int nlink = 3 + mjg_int(&R, 4);
+    mjsBody* parent = world;
+    for (int i = 0; i < nlink; i++) {
+      mjsBody* b = mjs_addBody(parent, NULL);
+      snprintf(nm, sizeof(nm), "mr%d", i); mjs_setName(b->element, nm);
+      b->pos[0] = i ? 0.2 : -4; b->pos[2] = i ? 0 : 1.5;
+      mjsJoint* j = mjs_addJoint(b, NULL);
+      snprintf(nm, sizeof(nm), "mrj%d", i); mjs_setName(j->element, nm);
+      j->type = mjJNT_HINGE; j->axis[0] = 0; j->axis[1] = 1; j->axis[2] = 0;
+      j->limited = mjLIMITED_TRUE; j->range[0] = -0.3 - 0.05 * i; j->range[1] = 0.6 + 0.1 * i; j->damping[0] = 0.5;
+      mjsGeom* g = mjs_addGeom(b, NULL); g->type = mjGEOM_CAPSULE; g->size[0] = 0.02;
+      g->fromto[0] = 0; g->fromto[1] = 0; g->fromto[2] = 0; g->fromto[3] = 0.2; g->fromto[4] = 0; g->fromto[5] = 0;
+      g->contype = 0; g->conaffinity = 0;
+      parent = b;
+    }
+    int nmotor = mjg_int(&R, 3);
+    for (int i = 0; i < nlink; i++) {
+      mjsActuator* a = mjs_addActuator(s, NULL);
+      snprintf(nm, sizeof(nm), "mra%d", i); mjs_setName(a->element, nm);
+      a->trntype = mjTRN_JOINT;
+      snprintf(nm, sizeof(nm), "mrj%d", i); mjs_setString(a->target, nm);
+      if (i >= nmotor) {
+        double timeconst[2] = {0.01, 0.04}, range[2] = {0.75, 1.05};
+        const char* e = mjs_setToMuscle(a, timeconst, 0, range, 50, 200, 0.5, 1.6, 1.5, 1.3, 1.2);
+        if (e && e[0]) printf("NOTE setToMuscle %s\n", e);
+      }
+    }
   }
   if (flags & 16) {   // history buffers: delayed actuators
     for (mjsElement* e = mjs_firstElement(s, mjOBJ_ACTUATOR); e; e = mjs_nextElement(s, e)) {
